@@ -536,6 +536,10 @@ func (fc *funcContext) ResolveForwardGoto(target *gotoLabelDesc) {
 
 func (fc *funcContext) NewLabel() int {
 	ret := fc.labelId
+	if ret > opMaxArgSbx {
+		// label ids are parked in the sBx field of jumps until they are resolved
+		raiseCompileError(fc, fc.Proto.LineDefined, "function has too many control structures")
+	}
 	fc.labelId++
 	return ret
 }
@@ -1158,6 +1162,9 @@ func compileNumberForStmt(context *funcContext, stmt *ast.NumberForStmt) { // {{
 	code.AddASbx(OP_FORLOOP, rindex, bodypc-(flpc+1), sline(stmt))
 
 	context.SetLabelPc(endlabel, code.LastPC())
+	if flpc-bodypc > opMaxArgSbx {
+		raiseCompileError(context, sline(stmt), "too long to jump.")
+	}
 	code.SetSbx(bodypc, flpc-bodypc)
 
 } // }}}
@@ -1924,6 +1931,9 @@ func patchCode(context *funcContext) { // {{{
 			count := 0 // avoiding infinite loops
 			for jmp := inst; opGetOpCode(jmp) == OP_JMP && count < 5; jmp = context.Code.At(pc + distance + 1) {
 				d := context.GetLabelPc(opGetArgSbx(jmp)) - pc
+				if d < -opMaxArgSbx && distance == 0 {
+					raiseCompileError(context, context.Proto.LineDefined, "too long to jump.")
+				}
 				if d > opMaxArgSbx {
 					if distance == 0 {
 						raiseCompileError(context, context.Proto.LineDefined, "too long to jump.")
